@@ -15,6 +15,17 @@ def fix_elems(x, ords):
         for v in x: fix_elems(v, ords)
 
 
+def wild_copy(a, b):
+    """where the implementation-side record says copy=None (not observable: a paragraph without element), the model's copy mark is
+    not compared; everything else is"""
+    if isinstance(a, dict) and isinstance(b, dict):
+        if 'copy' in a and a['copy'] is None and 'copy' in b: b['copy'] = None
+        for k in a:
+            if k in b: wild_copy(a[k], b[k])
+    elif isinstance(a, list) and isinstance(b, list):
+        for x, y in zip(a, b): wild_copy(x, y)
+
+
 _cache = {}
 
 
